@@ -73,7 +73,7 @@ class C14(vlib.Check):
             "fprints_from_sdf (through mol_to_sdf), fprints_from_smiles (seeded generation, repeated calls with different "
             "`first`), saved files reloaded for the three extensions; for the direct calls of fprints_dict_from_mol the whole "
             "returned dictionary (keys, order, names, fingerprints) is compared with the model of the conformer loop on one "
-            "reused fingerprinter object (driver op fpo.entry). Non-trivial: >= 2 conformers processed; distinct by case.")
+            "reused fingerprinter object (driver op fpo.entry); the same molecule object handed in again after in-place edits; 101 - 112 conformers. Non-trivial: >= 2 conformers processed; distinct by case.")
     trusted_base = ["RDKit SDF I/O, pickle/compression (compared on every run)"]
 
     def tmp(self):
@@ -93,9 +93,14 @@ class C14(vlib.Check):
         for k in range(n):
             ref = rng.choice(refs)
             nconf = rng.choice([1, 2, 3, 5, 12])
+            if k == 0 or rng.random() < 0.02:
+                nconf = rng.choice([101, 112])       # conformer indices of three digits in the names
+                self.count("conformers>=100")
             first = rng.choice([-1, 1, 2, max(1, nconf - 1), nconf, nconf + 5])
             o = MG.gen_opts(rng)
             o["level"] = rng.choice([0, 2, 5, -1, None])
+            if nconf > 100:
+                o["level"] = rng.choice([0, 1, 2])
             if o["level"] in (-1, None):
                 o["remove_duplicate_substructs"] = True
             entry = rng.choice(["from_mol", "from_mol", "dict", "dict_all_iters", "from_sdf", "save", "from_mol_all_iters", "select"])
